@@ -264,7 +264,10 @@ func (p *Path) branch(c *Term) bool {
 	}
 	p.pos++
 	rt := p.feasible(c)
-	rf := p.feasible(p.tb.Not(c))
+	rf := Sat // the path condition is satisfiable, so if c is impossible its negation is not
+	if rt != Unsat {
+		rf = p.feasible(p.tb.Not(c))
+	}
 	switch {
 	case rt != Unsat && rf != Unsat:
 		alt := append(append([]int{}, p.decisions...), 0)
@@ -657,6 +660,16 @@ func (p *Path) crossCheck(neg *Term, label string) {
 	e := p.e
 	if len(e.cfg.CrossSolvers) == 0 {
 		return
+	}
+	if e.cfg.Tier == 0 {
+		// quick tier: cross-check the first 25 discharged obligations per label
+		e.mu.Lock()
+		n := e.res.Known["crosschecked:"+label]
+		e.res.Known["crosschecked:"+label] = n + 1
+		e.mu.Unlock()
+		if n >= 25 {
+			return
+		}
 	}
 	w := p.w
 	if w.cross == nil {
